@@ -32,4 +32,13 @@ theorem c13_gen_ProtocolNameToID_eq (H : HashFns) (name : Bytes) :
   unfold Gen.C13.ProtocolNameToID protoId protoPre
   have : ascii "protocolname/" = [112, 114, 111, 116, 111, 99, 111, 108, 110, 97, 109, 101, 47] := by decide
   rw [c13_gen_consts, this]
+/-- **the `Equal` methods of the seven identifier types as translated are the model's `idEqual`** (Go's `==` on
+the 16-byte arrays; the operator is mapped to `idEqual` by `meta/go2lean.json`, what is checked here is that
+each method compares its receiver with its argument and nothing else), and `ServiceID.IsNil` is `idIsNil` -/
+theorem c13_gen_id_Equal_eq (H : HashFns) (a b : Bytes) :
+    Gen.C13.TreeID_Equal H a b = idEqual a b ∧ Gen.C13.RosterID_Equal H a b = idEqual a b ∧
+    Gen.C13.TreeNodeID_Equal H a b = idEqual a b ∧ Gen.C13.TokenID_Equal H a b = idEqual a b ∧
+    Gen.C13.RoundID_Equal H a b = idEqual a b ∧ Gen.C13.ProtocolID_Equal H a b = idEqual a b ∧
+    Gen.C13.ServiceID_Equal H a b = idEqual a b ∧ Gen.C13.ServiceID_IsNil H a = idIsNil a :=
+  ⟨rfl, rfl, rfl, rfl, rfl, rfl, rfl, rfl⟩
 end C13
